@@ -195,11 +195,29 @@ def main(argv=None):
         return mod.run(ctx)
     except T.TLCError as e:
         sys.stderr.write("MACHINERY FAILURE (TLC): %s\n" % e)
+        c = locals().get("ctx")
+        if c is not None and c.violations and not replay:
+            try:
+                c.exhaustive = False
+                c.notes.append("run aborted after %d violations by a TLC error: %s" % (len(c.violations), str(e)[:200]))
+                return c.finish(rule="aborted run (violations established before a TLC error)", assumptions=[])
+            except BaseException:
+                return 1
         return 2
     except SystemExit:
         raise
     except BaseException:
         sys.stderr.write("MACHINERY FAILURE:\n" + traceback.format_exc())
+        c = locals().get("ctx")
+        if c is not None and c.violations and not replay:
+            # violations were already established (and printed) before the harness tripped over what the changed code
+            # returned: the verdict stands
+            try:
+                c.exhaustive = False
+                c.notes.append("run aborted after %d violations by: %s" % (len(c.violations), traceback.format_exc().splitlines()[-1][:200]))
+                return c.finish(rule="aborted run (violations established before a harness error)", assumptions=[])
+            except BaseException:
+                return 1
         return 2
 
 
